@@ -29,6 +29,8 @@ func parseObservable(args []string) string {
 			return "ERR:notimpl"
 		case strings.Contains(s, "--sender only allowed"):
 			return "ERR:senderwos"
+		case strings.HasPrefix(s, "exit status"):
+			return "ERR:exit" // help / version printed: the caller decides whether to exit
 		}
 		return "ERR:" + s
 	}
